@@ -367,6 +367,29 @@ func (c32Store) Materialise(doc, path string) error {
 }
 func (c32Store) SetupAux(string) error          { return nil }
 
+// Equivalent: the same text up to 0.011 in every number (box coordinates are computed in floating
+// point on both sides and printed with two decimals; x.xx5 may round either way).
+func (c32Store) Equivalent(obs, want string) bool {
+	split := func(s string) []string {
+		return strings.FieldsFunc(s, func(r rune) bool { return r == ' ' || r == '[' || r == ']' || r == '\n' })
+	}
+	a, b := split(obs), split(want)
+	if len(a) != len(b) {
+		return false
+	}
+	for i := range a {
+		if a[i] == b[i] {
+			continue
+		}
+		x, err1 := strconv.ParseFloat(a[i], 64)
+		y, err2 := strconv.ParseFloat(b[i], 64)
+		if err1 != nil || err2 != nil || x-y > 0.011 || y-x > 0.011 {
+			return false
+		}
+	}
+	return true
+}
+
 func (c32Store) Families() []string { return []string{"rotate", "pages", "boxes"} }
 func (c32Store) Family(op string) string {
 	switch op {
